@@ -121,5 +121,9 @@ class Attacker:
             )
             return
 
-        node.compromised_by.remove(self)
-        self.reached_attack_steps.remove(node)
+        # Remove exactly this attacker and exactly that node, not the first
+        # one that compares equal to it.
+        node.compromised_by[:] = [attacker for attacker in \
+            node.compromised_by if attacker is not self]
+        self.reached_attack_steps[:] = [reached_step for reached_step in \
+            self.reached_attack_steps if reached_step is not node]
